@@ -8,8 +8,17 @@ any other exception with the place that raised it).
 Streams (all choices from the run's PRNG):
   valid   grammars of harness/gen_grammar.py (links, modifiers, predicates, …)
   ast:*   one to three AST-level mutations of a valid grammar: undefined rule,
-          dropped rule, duplicated rule, alias cycles / chains, invalid regex,
-          invalid string escape, bad rule parameters, modifiers on `?` / `=` / `?=`,
+          dropped rule, duplicated rule, alias cycles / chains, alias graphs (rules whose
+          body is one rule reference forming a random functional graph: tails into cycles,
+          several tails, chains into real / base / undefined rules, entered from the root
+          rule, from references in other rules or not at all), rule references redirected
+          to arbitrary rules (recursion through ordinary / abstract rules), regular expressions drawn
+          from the productions of Python's regex syntax (valid, or with one flaw: a
+          repetition bound of every magnitude up to 10**30, reversed bounds, multiple /
+          empty repeats, unbalanced groups and classes, bad escapes / groups / flags,
+          conflicting flags, back-references, look-behinds, nesting deeper than the
+          interpreter stack, character-level damage), string matches with generated
+          escapes, bad rule parameters, modifiers on `?` / `=` / `?=`,
           `?=` twice / after `=` / inside a repetition, attribute `parent`, links to
           primitive types / unknown classes / unknown match rules / qualified names,
           `reference` statements, reserved rule names, `import`, `#` on single
@@ -23,9 +32,10 @@ Lean side: the text is parsed with the grammar parser of the tree under test
 (`ParserPython(lang.textx_model)`); the parse tree is converted into the typed
 tree of `GramLoad.Grammar` (shape violations are reported, never patched) and
 `GramLoad.compile` / `GramLoad.outcomes` give the outcome class
-(Drivers/GramLoad.lean, op grammar_outcome).  Whether a regex compiles and
-whether the escapes of a string decode is decided here with `re` / `codecs`
-(not through textX) and passed along.
+(Drivers/GramLoad.lean, op grammar_outcome).  Whether a regex compiles (and the
+class of the exception the regex engine raises when it does not: `re.error`,
+OverflowError, RecursionError, ValueError, …) and whether the escapes of a string
+decode is decided here with `re` / `codecs` (not through textX) and passed along.
 """
 import copy
 import os
@@ -134,7 +144,7 @@ TOKENS = ["A", "B", "Model", "R1", "R2", "INT", "ID", "STRING", "OBJECT", "BASET
           "'a'", "'b'", "','", "''", "/x/", "/(/", r"/\d+/", "eolterm", "skipws", "noskipws", "ws", "ws='x'", "split",
           "a", "b", "name", "parent", "a=", "b+=", "c*=", "d?=", "[A]", "[Model]", "[A:ID]", "[A|ID]", "[A:ID|a]",
           "[A:ID|^a*.b]", "[A:ID|+m:a]", "[INT]", "[x.Y]", "import", "reference", "foo", "as", r"'\xZZ'", r"'\n'",
-          "__asgn_x", "//c\n", "/*c*/", "/", "'", '"', "\t", "\r\n", "\u00e9", "\x00", "\ufeff", "/(?i)a/", "/a(?i)b/",
+          "__asgn_x", "//c\n", "/*c*/", "/", "'", '"', "\t", "\r\n", "\u00e9", "\x00", "\ufeff", "/(?i)a/", "/a(?i)b/", "/a{4294967296}/", "/a{2,4294967294}/", "/(?a)(?u)a/",
           "'\u00e9'", "\u00c9: 'x';"]
 
 TOKEN_RE = re.compile(
@@ -154,6 +164,234 @@ def join_tokens(toks):
         if t in (";",) or t.startswith("//"):
             out += "\n"
     return out
+
+
+# ---------------------------------------------------------------------------
+# regular expressions drawn from the productions of Python's regex syntax
+# ---------------------------------------------------------------------------
+#   regex := branch ('|' branch)*     branch := piece+      piece := atom quant?
+#   atom  := char | '.' | class | escape | anchor | group | back-reference
+#   group := '(' regex ')' | '(?:' … | '(?P<n>' … | look-around | '(?P=n)' | '(?(1)a|b)' | '(?i:' … | '(?#…)' | '(?>' …
+#   quant := '*' | '+' | '?' | '{m}' | '{m,}' | '{,n}' | '{m,n}'   each optionally lazy '?' or possessive '+'
+# A regex is either generated valid, or valid with exactly one flaw of one of RE_FLAWS (every flaw sits on
+# one production).  Numbers come from magnitude classes up to far beyond the regex engine's limits.
+SMALL_N = [0, 1, 1, 2, 2, 3, 5, 10]
+EDGE_N = [255, 256, 65535, 65536, 2 ** 31 - 1, 2 ** 31, 2 ** 32 - 2, 2 ** 32 - 1, 2 ** 32, 2 ** 32 + 1, 2 ** 63, 2 ** 64,
+          10 ** 20, 10 ** 30]
+RE_FLAWS = ["bound-edge", "bound-order", "multi-repeat", "empty-repeat", "open-group", "close-group", "open-class",
+            "class-range", "bad-escape", "bad-group", "bad-flags", "flags-conflict", "backref", "lookbehind", "deep", "charmut"]
+RE_SLASH_SAFE = re.compile(r"(?:\\[^\n]|[^/\\\n])*\Z")
+
+
+class ReGen:
+    CHARS = list("abcxyz019_ -:,;=<>!&#%@~") + ["é", "ß"]
+    ESC_OK = [r"\d", r"\w", r"\s", r"\S", r"\D", r"\b", r"\B", r"\A", r"\Z", r"\.", r"\\", r"\/", r"\n", r"\t", r"\x41",
+              r"\u00e9", r"\U0001F600", r"\N{DIGIT ONE}", r"\077", r"\0", r"\-", r"\(", r"\[", r"\*", r"\$"]
+    ESC_BAD = [r"\q", r"\N{no such name}", r"\N", r"\N{", r"\x4", r"\xZZ", r"\u12", r"\U99999999", r"\U0000", r"\777", r"\400",
+               r"\p{L}", r"\g<1>", r"\z", r"\e", r"\c", r"\i", r"\X", r"\R"]
+    GROUP_BAD = ["(?P<1a>x)", "(?P<n>a)(?P<n>b)", "(?P=nope)", "(?P<n", "(?Px)", "(?", "(?<a)", "(?(9)a|b)", "(a)(?(1)a|b|c)",
+                 "(?(x)a)", "(?#unterminated", "(?P>x)", "(?P<>x)", "(?P<é-1>x)", "(?(0)a)", "(?P=)", "(?(", "(?<", "(?'n'x)"]
+    FLAGS_BAD = ["(?z)", "(?L)", "(?iz)", "(?i-)", "(?-i)", "(?i-i:a)", "(?au)", "(?a-u:x)", "(?-:a)", "(?L:a)", "(?aL:a)",
+                 "(?i", "(?i:", "(?-a:x)", "(?ii)", "(?u-u:x)", "(?t)"]
+    FLAGS_CONFLICT = ["(?a)(?u)", "(?u)(?a)", "(?a)(?iu)", "(?mu)(?a)", "(?a)(?u)(?i)"]
+    LOOKBEHIND_BAD = ["(?<=a+)b", "(?<!a*)", "(?<=a|bc)", "(?<=a{1,2})", "(?<!(a)?)", "(?<=.*)", r"(?<=(?P<q>a)|b\1)"]
+    NAMES = ["n", "id", "k1", "g"]
+
+    def __init__(self, rng):
+        self.r = rng
+        self.ngroups = 0
+        self.named = []
+
+    def num(self, edge=False):
+        return self.r.choice(EDGE_N if edge else SMALL_N)
+
+    def bound(self, edge=False):
+        r = self.r
+        m, n = self.num(), self.num(edge)
+        if not edge and m > n:
+            m, n = n, m
+        form = r.choice(["{n}", "{m,n}", "{m,n}", "{n,}", "{,n}"])
+        return form.replace("m", str(m)).replace("n", str(n))
+
+    def quant(self, edge=False):
+        r = self.r
+        q = self.bound(True) if edge else r.weighted([("*", 3), ("+", 3), ("?", 3), (self.bound(), 3)])
+        return q + r.weighted([("", 8), ("?", 1), ("+", 1)])
+
+    def cls(self):
+        r = self.r
+        items = []
+        for _ in range(r.randint(1, 3)):
+            items.append(r.choice(["a", "a-c", "0-9", "A-Z", r"\d", r"\w", r"\s", r"\]", r"\\", r"\-", "_", ".", "^", "$", "é",
+                                   "x-z", r"\x41-\x5a", r"\/", "(", "*", r"\n", r"\u00e0-\u00ff", "[:alpha:]"]))
+        return "[" + ("^" if r.chance(0.25) else "") + "".join(items) + "]"
+
+    def group(self, d):
+        r = self.r
+        kind = r.weighted([("cap", 4), ("non", 3), ("named", 2), ("ahead", 1), ("nahead", 1), ("behind", 1), ("nbehind", 1),
+                           ("nameref", 1), ("cond", 1), ("flags", 2), ("comment", 1), ("atomic", 1)])
+        if kind == "cap":
+            self.ngroups += 1
+            return "(" + self.regex(d - 1) + ")"
+        if kind == "non":
+            return "(?:" + self.regex(d - 1) + ")"
+        if kind == "named":
+            free = [n for n in self.NAMES if n not in self.named]
+            if not free:
+                return "(?:" + self.regex(d - 1) + ")"
+            nm = r.choice(free)
+            self.named.append(nm)
+            self.ngroups += 1
+            return f"(?P<{nm}>" + self.regex(d - 1) + ")"
+        if kind in ("ahead", "nahead"):
+            return ("(?=" if kind == "ahead" else "(?!") + self.regex(d - 1) + ")"
+        if kind in ("behind", "nbehind"):
+            fixed = "".join(r.choice(["a", ".", r"\d", "[ab]", "x{2}", r"\."]) for _ in range(r.randint(1, 2)))
+            return ("(?<=" if kind == "behind" else "(?<!") + fixed + ")"
+        if kind == "nameref" and self.named:
+            return f"(?P={r.choice(self.named)})"
+        if kind == "cond" and self.ngroups:
+            ref = str(r.randint(1, self.ngroups)) if not self.named or r.chance(0.6) else r.choice(self.named)
+            return f"(?({ref})" + self.branch(0) + ("|" + self.branch(0) if r.chance(0.6) else "") + ")"
+        if kind == "flags":
+            on = "".join(r.sample(list("imsx"), r.randint(1, 2)))
+            off = "-" + r.choice([c for c in "imsx" if c not in on]) if r.chance(0.3) else ""
+            return f"(?{on}{off}:" + self.regex(d - 1) + ")"
+        if kind == "comment":
+            return "(?#" + r.choice(["c", "", "a b", "[", "*"]) + ")"
+        return "(?>" + self.regex(d - 1) + ")"
+
+    def atom(self, d):
+        r = self.r
+        c = r.weighted([("ch", 7), ("dot", 1), ("cls", 3), ("esc", 3), ("grp", 4 if d > 0 else 0), ("anchor", 1),
+                        ("backref", 1 if self.ngroups else 0)])
+        if c == "ch":
+            return r.choice(self.CHARS)
+        if c == "dot":
+            return "."
+        if c == "cls":
+            return self.cls()
+        if c == "esc":
+            return r.choice(self.ESC_OK)
+        if c == "grp":
+            return self.group(d)
+        if c == "anchor":
+            return r.choice(["^", "$"])
+        return "\\" + str(r.randint(1, self.ngroups))
+
+    def piece(self, d):
+        a = self.atom(d)
+        if a in ("^", "$") or a[:2] in (r"\b", r"\B", r"\A", r"\Z") or a.startswith(("(?=", "(?!", "(?<", "(?#")):
+            return a
+        return a + (self.quant() if self.r.chance(0.35) else "")
+
+    def branch(self, d):
+        return "".join(self.piece(d) for _ in range(self.r.randint(1, 3)))
+
+    def regex(self, d):
+        return "|".join(self.branch(d) for _ in range(self.r.weighted([(1, 6), (2, 2), (3, 1)])))
+
+    def valid(self):
+        r = self.r
+        pre = ""
+        if r.chance(0.12):
+            pre = "(?" + "".join(r.sample(list("imsxau"), 1) if r.chance(0.7) else r.sample(list("imsx"), 2)) + ")"
+        return pre + self.regex(r.weighted([(0, 3), (1, 4), (2, 2)]))
+
+    # --- one flaw -----------------------------------------------------------
+    def flawed(self, flaw):
+        r = self.r
+        pieces = [self.piece(1) for _ in range(r.randint(0, 3))]
+        at_start = False
+        simple = r.choice(["a", ".", "[a-c]", r"\d", "(?:ab)", "(x|y)"])
+        if flaw == "bound-edge":
+            bad = simple + self.quant(edge=True)
+        elif flaw == "bound-order":
+            m = self.num() + 1
+            bad = simple + "{" + str(m + r.choice([1, 2, 65536, 2 ** 32])) + "," + str(m) + "}"
+        elif flaw == "multi-repeat":
+            bad = simple + r.choice(["**", "*{2}", "{2}{3}", "+*", "??+", "{1,2}*", "?{2}", "+++"])
+        elif flaw == "empty-repeat":
+            bad = r.choice(["*a", "+", "?", "(*a)", "(?:+)", "a|*b", "{2}", "^*", "(?=a)*", "$+"])
+            at_start = bad[0] in "*+?{"
+        elif flaw == "open-group":
+            bad = r.choice(["(", "(?:", "(?P<n>", "(?=", "(?i:", "(?>"]) + simple
+        elif flaw == "close-group":
+            bad = simple + ")"
+        elif flaw == "open-class":
+            bad = r.choice(["[a-c", "[", "[^", "[]", "[^]", r"[a\]", "[a-", "[[:alpha:]"])
+        elif flaw == "class-range":
+            bad = r.choice(["[c-a]", r"[\d-z]", r"[a-\d]", "[9-0]", r"[\w-\s]", r"[z-\x41]", "[--!]"])
+        elif flaw == "bad-escape":
+            bad = r.choice(self.ESC_BAD) + r.choice(["", "a", "+"])
+        elif flaw == "bad-group":
+            bad = r.choice(self.GROUP_BAD)
+        elif flaw == "bad-flags":
+            bad = r.choice(self.FLAGS_BAD)
+            at_start = r.chance(0.5)
+        elif flaw == "flags-conflict":
+            bad = r.choice(self.FLAGS_CONFLICT)
+            at_start = r.chance(0.8)
+        elif flaw == "backref":
+            bad = r.choice([r"\3", r"(a\1)", r"\10", r"\1(a)", r"(?P<k>a(?P=k))", r"(a)|\2", r"(?:a)\1", r"\99"])
+        elif flaw == "lookbehind":
+            bad = r.choice(self.LOOKBEHIND_BAD)
+        elif flaw == "deep":
+            n = r.choice([12, 60, 3000, 3000, 5000])
+            op, cl = r.choice([("(", ")"), ("(?:", ")"), ("(?:", ")?"), ("(a|", ")")])
+            bad = op * n + simple + cl * n
+        else:  # charmut: character-level damage of a valid regex
+            src = self.valid()
+            for _ in range(r.randint(1, 2)):
+                j = r.below(len(src) + 1)
+                op = r.choice(["drop", "dup", "ins", "ins"])
+                if op == "drop" and src:
+                    j = min(j, len(src) - 1)
+                    src = src[:j] + src[j + 1:]
+                elif op == "dup" and src:
+                    j = min(j, len(src) - 1)
+                    src = src[:j] + src[j] + src[j:]
+                else:
+                    src = src[:j] + r.choice(list("()[]{}*+?|\\^$-,:<>=!P#") + ["(?", "{,", "\\\\"]) + src[j:]
+            return src
+        if at_start:
+            return bad + "".join(pieces)
+        j = r.below(len(pieces) + 1)
+        return "".join(pieces[:j]) + bad + "".join(pieces[j:])
+
+
+def gen_regex(rng, flaw_p=0.6):
+    """(source, flaw | None); the source can stand between the slashes of a regex match"""
+    gen = ReGen(rng)
+    # the flaws the regex engine answers with another exception class than re.error are drawn more often
+    flaw = rng.weighted([(f, 3 if f in ("bound-edge", "deep", "flags-conflict") else 1) for f in RE_FLAWS]) if rng.chance(flaw_p) else None
+    for _ in range(4):
+        src = gen.flawed(flaw) if flaw else gen.valid()
+        if src and RE_SLASH_SAFE.match(src) and not src.startswith(("/", "*")):  # `//`, `/*` would open a comment
+            return src, flaw
+    return r"\w+", None
+
+
+# ---------------------------------------------------------------------------
+# string matches with generated escape sequences
+# ---------------------------------------------------------------------------
+STR_ESC_OK = [r"\n", r"\t", r"\\", r"\a", r"\b", r"\f", r"\r", r"\v", r"\x41", r"\x7f", r"\xff", r"\u0041", r"\u00e9", r"\uffff",
+              r"\ud800", r"\udfff", r"\U0001F600", r"\U0010FFFF", r"\U00000041", r"\N{DIGIT ONE}", r"\N{LATIN SMALL LETTER A}",
+              r"\N{dash}", r"\0", r"\7", r"\77", r"\377", r"\400", r"\777", r"\q", r"\8", r"\N", r"\N{}", r"\x", r"\u", r"\ "]
+STR_ESC_BAD = [r"\xZZ", r"\x4", r"\x4g", r"\u12zz", r"\u12", r"\u00", r"\uD8", r"\U99999999", r"\U00110000", r"\UFFFFFFFF",
+               r"\U0000", r"\Uzzzzzzzz", r"\N{no such name}", r"\N{ }", r"\N{LATIN}", r"\N{1}", r"\x-1", r"\u+041", r"\U-0000041"]
+
+
+def gen_str_literal(rng, bad_p=0.6):
+    """a string match in grammar syntax; with `bad_p` one of its escape sequences is malformed"""
+    quote = rng.choice("'\"")
+    parts = [rng.choice(["a", "b", "k", " ", "x1", "é", "", "-", "if"] + STR_ESC_OK[:20]) for _ in range(rng.randint(0, 3))]
+    esc = rng.choice(STR_ESC_BAD) if rng.chance(bad_p) else rng.choice(STR_ESC_OK)
+    parts.insert(rng.below(len(parts) + 1), esc)
+    if parts[-1].endswith("\\") or (len(parts[-1]) < 10 and parts[-1][:2] in (r"\U", r"\u", r"\x")):
+        parts.append("z")  # the closing quote must not become part of an escape
+    body = "".join(parts).replace(quote, "")
+    return quote + body + quote
 
 
 # ---------------------------------------------------------------------------
@@ -241,11 +479,132 @@ def m_alias_cycle(g, rng):
             g["rules"][0]["body"] = {"k": "seq", "xs": [g["rules"][0]["body"], {"k": "ref", "name": new[0]}]}
 
 
+def _alias_edges(rng, nodes, real):
+    """targets of the alias rules `nodes`: a functional graph of one of several shapes"""
+    k = len(nodes)
+    shape = rng.weighted([("rho", 4), ("two-tails", 2), ("random", 4), ("chain", 2), ("cycle", 1)])
+    outside = lambda: rng.weighted([(rng.choice(real) if real else "Undef", 5), (rng.choice(G.BASE + ["OBJECT"]), 2), ("Undef", 2),
+                                    (rng.choice(["x.Y", "textx.TextxRule", "__base__.INT"]), 1)])
+    if shape == "rho" and k >= 2:
+        t = rng.randint(1, k - 1)                      # tail nodes[0:t], cycle nodes[t:]
+        tgt = [nodes[i + 1] for i in range(k - 1)] + [nodes[t]]
+    elif shape == "two-tails" and k >= 3:
+        c = rng.randint(1, k - 2)                      # cycle nodes[0:c], the others lead into it (directly or one after another)
+        tgt = [nodes[(i + 1) % c] for i in range(c)]
+        for i in range(c, k):
+            tgt.append(rng.choice(nodes[:i]))
+    elif shape == "chain":
+        tgt = [nodes[i + 1] for i in range(k - 1)] + [outside() if rng.chance(0.6) else rng.choice(nodes)]
+    elif shape == "cycle":
+        tgt = [nodes[(i + 1) % k] for i in range(k)]
+    else:
+        shape = "random"
+        tgt = [rng.choice(nodes) if rng.chance(0.75) else outside() for _ in range(k)]
+    return shape, tgt
+
+
+def _ref_in_context(rng, name, real_names):
+    """a reference to rule `name` in one of the syntactic positions a rule reference can take"""
+    ref = {"k": "ref", "name": name}
+    c = rng.weighted([("plain", 4), ("asgn", 3), ("rep", 2), ("pred", 1), ("sup", 1), ("link", 1), ("group", 1)])
+    if c == "asgn":
+        return {"k": "asgn", "attr": rng.choice(["x", "al", "name"]), "op": rng.choice(["=", "+=", "*=", "?="]), "rhs": ref,
+                "sep": None, "eol": False}
+    if c == "rep":
+        return {"k": "rep", "op": rng.choice("*+?#"), "x": ref, "sep": None, "eol": False}
+    if c == "pred":
+        return {"k": "seq", "xs": [{"k": "pred", "neg": rng.chance(0.5), "x": ref}, {"k": "str", "v": "p"}]}
+    if c == "sup":
+        return dict(ref, sup=True)
+    if c == "link":
+        return {"k": "asgn", "attr": "lk", "op": rng.choice(["=", "+="]),
+                "rhs": {"k": "link", "cls": rng.choice(real_names) if real_names else "OBJECT", "rule": name, "rrel": None,
+                        "sepch": rng.choice([":", "|"])}, "sep": None, "eol": False}
+    if c == "group":
+        return {"k": "alt", "xs": [ref, {"k": "str", "v": "g"}]}
+    return ref
+
+
+def m_alias_graph(g, rng):
+    """Rules whose body is a single rule reference, forming a random functional graph: tails leading into
+    cycles, several tails into one cycle, chains that end in a real / base / undefined rule; the rules are new or
+    take over existing rules (keeping the references other rules have to them), stand anywhere in the grammar
+    (also first: the walk of the second pass then starts inside the graph) and are referenced from other rules in
+    every syntactic position, or not at all."""
+    k = rng.weighted([(2, 2), (3, 4), (4, 3), (5, 2), (6, 1), (8, 1)])
+    old = rng.shuffle(list(range(len(g["rules"]))))
+    nodes, take = [], {}
+    for i in range(k):
+        if old and rng.chance(0.3):
+            j = old.pop()
+            nm = g["rules"][j]["name"]
+            if nm in nodes:
+                nm = f"Z{i}"
+            else:
+                take[nm] = j
+        else:
+            nm = f"Z{i}"
+        nodes.append(nm)
+    real = [r["name"] for i, r in enumerate(g["rules"]) if i not in take.values()]
+    shape, tgt = _alias_edges(rng, nodes, real)
+    new_rules = []
+    for nm, t in zip(nodes, tgt):
+        body = {"k": "ref", "name": t}
+        deco = rng.weighted([("none", 14), ("paren", 2), ("sup", 1), ("params", 1), ("pred", 1), ("rep", 1)])
+        rule = {"name": nm, "params": {}, "body": body}
+        if deco == "paren":
+            rule["body"] = {"k": "raw", "v": "(" * rng.randint(1, 2) + t}
+            rule["body"]["v"] += ")" * rule["body"]["v"].count("(")
+        elif deco == "sup":
+            body["sup"] = True
+        elif deco == "params":
+            rule["params"] = {"skipws": rng.chance(0.5)}
+        elif deco == "pred":
+            rule["body"] = {"k": "seq", "xs": [{"k": "pred", "neg": True, "x": body}, {"k": "str", "v": "p"}]}
+        elif deco == "rep":
+            rule["body"] = {"k": "rep", "op": rng.choice("*+?"), "x": body, "sep": None, "eol": False}
+        if nm in take:
+            g["rules"][take[nm]] = rule
+        else:
+            new_rules.append(rule)
+    for rule in rng.shuffle(new_rules):
+        g["rules"].insert(rng.randint(0, len(g["rules"])), rule)
+    hosts = [r for r in g["rules"] if r["name"] not in nodes]
+    if hosts:
+        for _ in range(rng.weighted([(0, 2), (1, 5), (2, 2)])):
+            host = rng.choice(hosts)
+            node = _ref_in_context(rng, rng.choice(nodes[:2]) if rng.chance(0.6) else rng.choice(nodes), real)
+            if rng.chance(0.3):
+                host["body"] = {"k": "alt", "xs": [host["body"], node]}
+            else:
+                host["body"] = {"k": "seq", "xs": [host["body"], node] if rng.chance(0.7) else [node, host["body"]]}
+    return shape
+
+
+def m_rewire(g, rng):
+    """Recursive rule definitions through ordinary rules: rule references are redirected to arbitrary rules of the
+    grammar (backwards, to the rule itself, to the root), so abstract rules inherit from each other in cycles, rules are
+    left / right / mutually recursive, and single alternatives point back to their ancestors."""
+    names = [r["name"] for r in g["rules"]]
+    refs = [(n, p, k) for (n, p, k) in all_nodes(g) if n["k"] == "ref" and n["name"] in names]
+    if not refs:
+        r = rng.choice(g["rules"])
+        r["body"] = {"k": "alt", "xs": [{"k": "ref", "name": rng.choice(names)}, r["body"]]}
+        return
+    for n, _p, _k in rng.sample(refs, min(len(refs), rng.randint(1, 4))):
+        n["name"] = rng.choice(names)
+    if rng.chance(0.4):
+        # a rule that is nothing but a choice of rules (an abstract rule), pointing anywhere
+        r = rng.choice(g["rules"])
+        r["body"] = {"k": "alt", "xs": [{"k": "ref", "name": rng.choice(names)} for _ in range(rng.randint(2, 3))]}
+
+
 def _literal_slots(g):
     return [(n, p, k) for (n, p, k) in all_nodes(g) if n["k"] in ("str", "re")]
 
 
 def m_bad_regex(g, rng):
+    """an invalid regex from the fixed pool (kept: the classical witnesses)"""
     slots = _literal_slots(g)
     bad = {"k": "re", "v": rng.choice(BAD_RE)}
     if slots and rng.chance(0.8):
@@ -255,9 +614,41 @@ def m_bad_regex(g, rng):
         g["rules"][-1]["body"] = {"k": "seq", "xs": [g["rules"][-1]["body"], bad]}
 
 
+def m_regex(g, rng):
+    """a regex drawn from the regex productions (valid, or with one flaw) in one of the places a regex match can
+    stand: instead of a literal (rule bodies, separators of repeat modifiers), at the end of a rule, as the right-hand
+    side of an assignment, as a new match rule, as the Comment rule"""
+    src, _flaw = gen_regex(rng)
+    node = {"k": "re", "v": src}
+    slots = _literal_slots(g)
+    where = rng.weighted([("slot", 6 if slots else 0), ("append", 2), ("asgn", 2), ("rule", 2), ("comment", 1), ("sep", 1)])
+    if where == "slot":
+        n, p, k = rng.choice(slots)
+        replace(p, k, node)
+    elif where == "append":
+        r = rng.choice(g["rules"])
+        r["body"] = {"k": "seq", "xs": [r["body"], node]}
+    elif where == "asgn":
+        r = rng.choice(g["rules"])
+        a = {"k": "asgn", "attr": rng.choice(["v", "val", "a"]), "op": rng.choice(["=", "+=", "?="]), "rhs": node, "sep": None, "eol": False}
+        r["body"] = {"k": "seq", "xs": [r["body"], a]}
+    elif where == "rule":
+        g["rules"].append({"name": "Rx", "params": {}, "body": node})
+        r = rng.choice(g["rules"][:-1])
+        r["body"] = {"k": "seq", "xs": [r["body"], {"k": "rep", "op": "?", "x": {"k": "ref", "name": "Rx"}, "sep": None, "eol": False}]}
+    elif where == "comment":
+        if not any(r["name"] == "Comment" for r in g["rules"]):
+            g["comment"] = src
+    else:
+        r = rng.choice(g["rules"])
+        r["body"] = {"k": "seq", "xs": [r["body"], {"k": "rep", "op": rng.choice("*+"), "x": {"k": "str", "v": "s"}, "sep": node,
+                                                    "eol": rng.chance(0.2)}]}
+
+
 def m_bad_escape(g, rng):
     slots = _literal_slots(g)
-    bad = {"k": "raw", "v": rng.choice(BAD_STR if rng.chance(0.7) else ODD_STR)}
+    c = rng.below(10)
+    bad = {"k": "raw", "v": gen_str_literal(rng) if c < 5 else rng.choice(BAD_STR if c < 8 else ODD_STR)}
     if slots and rng.chance(0.8):
         n, p, k = rng.choice(slots)
         replace(p, k, bad)
@@ -442,8 +833,8 @@ def m_nest(g, rng):
 
 
 AST_MUTATIONS = [
-    ("undef-ref", m_undef_ref, 3), ("drop-rule", m_drop_rule, 2), ("dup-rule", m_dup_rule, 3), ("alias", m_alias_cycle, 5),
-    ("bad-regex", m_bad_regex, 3), ("bad-escape", m_bad_escape, 3), ("bad-param", m_bad_param, 4), ("bad-mods", m_bad_mods, 3),
+    ("undef-ref", m_undef_ref, 3), ("drop-rule", m_drop_rule, 2), ("dup-rule", m_dup_rule, 3), ("alias", m_alias_cycle, 3),
+    ("alias-graph", m_alias_graph, 7), ("rewire", m_rewire, 3), ("bad-regex", m_bad_regex, 1), ("regex", m_regex, 6), ("bad-escape", m_bad_escape, 3), ("bad-param", m_bad_param, 4), ("bad-mods", m_bad_mods, 3),
     ("bool-asgn", m_bool_asgn, 4), ("parent", m_parent_attr, 1), ("link", m_link, 6), ("reference", m_reference, 3),
     ("reserved", m_reserved_name, 2), ("import", m_import, 1), ("hash", m_hash_single, 2), ("base-named", m_base_named, 2),
     ("nest", m_nest, 1),
@@ -462,9 +853,13 @@ class Free:
 
     def __init__(self, rng):
         self.r = rng
+        self.alias_p = rng.choice([0, 0, 0.15, 0.5, 0.8])
 
     def smatch(self):
-        return self.r.choice(self.STRS) if self.r.chance(0.6) else self.r.choice(self.RES)
+        r = self.r
+        if r.chance(0.08):
+            return "/" + gen_regex(r)[0] + "/" if r.chance(0.6) else gen_str_literal(r, bad_p=0.4)
+        return r.choice(self.STRS) if r.chance(0.6) else r.choice(self.RES)
 
     def mods(self):
         return "[" + " ".join(self.r.choice([self.smatch(), "eolterm"]) for _ in range(self.r.randint(1, 2))) + "]"
@@ -522,6 +917,10 @@ class Free:
         s = r.choice(["A", "B", "C", "D", "A", "B", "C", "D", "INT", "Comment", "ID", "__asgn_r"])
         if r.chance(0.2):
             s += "[" + ", ".join(r.choice(self.PARAMS) for _ in range(r.randint(1, 2))) + "]"
+        if self.alias_p and r.chance(self.alias_p):
+            # a rule defined by one rule reference (the rules of such a grammar form chains, cycles, tails into cycles)
+            t = r.choice(["A", "B", "C", "D", "A", "B", "C", "D", "INT", "Undef", "Comment"])
+            return s + ": " + r.weighted([(t, 8), ("(" + t + ")", 1), (t + "-", 1)]) + ";"
         return s + ": " + self.choice(2) + ";"
 
     def grammar(self):
@@ -531,7 +930,7 @@ class Free:
             pre += "import foo\n"
         if r.chance(0.15):
             pre += _reference_stm(r) + "\n"
-        return pre + "\n".join(self.rule() for _ in range(r.randint(1, 5))) + "\n"
+        return pre + "\n".join(self.rule() for _ in range(r.randint(1, 7 if self.alias_p else 5))) + "\n"
 
 
 # ---------------------------------------------------------------------------
@@ -584,16 +983,18 @@ def _lit(n, ic):
         return {"k": "str", "ok": ok}
     if c.rule_name == "re_match":
         src = c.value[1:-1]
+        exc = None
         try:
             import warnings
 
             with warnings.catch_warnings():
                 warnings.simplefilter("ignore")
                 re.compile(src, re.MULTILINE | (re.IGNORECASE if ic else 0))
-            ok = True
-        except Exception:
-            ok = False
-        return {"k": "re", "ok": ok}
+        except Exception as e:  # the class of the refusal is an input of the model (the handler must catch every one)
+            exc = ("error" if isinstance(e, re.error) else "RecursionError" if isinstance(e, RecursionError)
+                   else "OverflowError" if isinstance(e, OverflowError) else "ValueError" if isinstance(e, ValueError)
+                   else "other")
+        return {"k": "re", "ok": exc is None, "exc": exc}
     raise ShapeError("simple_match child " + c.rule_name)
 
 
@@ -770,6 +1171,111 @@ def paren_depth(text):
     return m
 
 
+def regex_outcomes(tree):
+    """compile outcome ("ok" or the exception class) of every regex literal of a typed tree"""
+    out = []
+
+    def lit(l):
+        if l["k"] == "re":
+            out.append(l["exc"] or "ok")
+
+    def mods(ms):
+        for m in ms or []:
+            if m["k"] == "sep":
+                lit(m["l"])
+
+    def choice(c):
+        for seq in c:
+            for x in seq:
+                e = x["e"]
+                if e["k"] == "asgn":
+                    if e["rhs"]["k"] == "lit":
+                        lit(e["rhs"]["l"])
+                    mods(e["m"])
+                elif e["k"] == "lit":
+                    lit(e["l"])
+                elif e["k"] == "grp":
+                    choice(e["c"])
+                if x["r"]:
+                    mods(x["r"]["m"])
+
+    for r in tree["rules"]:
+        choice(r["b"])
+    return out
+
+
+def alias_shape(tree):
+    """shape of the graph of the rules whose body is one plain rule reference (coverage statistic only):
+    "rho" = some chain of such rules runs into a cycle that does not contain its first rule, "cycle", "chain"
+    (two or more such rules one after another, ending outside), "single" or None"""
+    nxt = {}
+    for r in tree["rules"]:
+        b = r["b"]
+        while len(b) == 1 and len(b[0]) == 1 and b[0][0]["e"]["k"] == "grp" and b[0][0]["r"] is None and b[0][0]["e"]["pr"] is None:
+            b = b[0][0]["e"]["c"]
+        if r["p"] is None and len(b) == 1 and len(b[0]) == 1 and b[0][0]["e"]["k"] == "ref" and b[0][0]["r"] is None \
+                and b[0][0]["e"]["pr"] is None:
+            nxt[r["n"]] = b[0][0]["e"]["n"]     # a later rule of the same name replaces the earlier one
+    best = None
+    rank = {None: 0, "single": 1, "chain": 2, "cycle": 3, "rho": 4}
+    for start in nxt:
+        seen = [start]
+        cur = nxt[start]
+        while cur in nxt and cur not in seen:
+            seen.append(cur)
+            cur = nxt[cur]
+        if cur in seen:
+            sh = "cycle" if cur == start else "rho"
+        else:
+            sh = "chain" if len(seen) > 1 else "single"
+        if rank[sh] > rank[best]:
+            best = sh
+    return best
+
+
+def ref_chain_depth(tree):
+    """length of the longest chain of rules each of which references the next (cycles are cut): the depth the
+    recursive `_resolve_rule` reaches on the grammar"""
+    refs = {}
+
+    def choice(c, acc):
+        for seq in c:
+            for x in seq:
+                e = x["e"]
+                if e["k"] == "ref":
+                    acc.add(e["n"])
+                elif e["k"] == "grp":
+                    choice(e["c"], acc)
+                elif e["k"] == "asgn":
+                    if e["rhs"]["k"] == "ref":
+                        acc.add(e["rhs"]["n"])
+                    elif e["rhs"]["k"] == "obj":
+                        acc.add(e["rhs"]["rule"] or "ID")
+
+    for r in tree["rules"]:
+        acc = set()
+        choice(r["b"], acc)
+        refs[r["n"]] = sorted(acc)
+    depth, state = {}, {}
+    for root in refs:                      # iterative DFS: the grammar may be deeper than this interpreter's stack
+        if root in depth:
+            continue
+        stack = [(root, iter(refs[root]))]
+        state[root] = 1
+        while stack:
+            n, it = stack[-1]
+            for m in it:
+                if m in refs and m not in state:
+                    state[m] = 1
+                    stack.append((m, iter(refs[m])))
+                    break
+            else:
+                stack.pop()
+                state[n] = 2
+                depth[n] = 1 + max([depth.get(m, 0) for m in refs[n] if state.get(m) == 2 and m != n] or [0])
+    return max(depth.values() or [0])
+
+
 OUT_NAMES = {"TextXSyntaxError": "syntax", "TextXSemanticError": "semantic", "TextXRegistrationError": "registration",
              "TextXError": "txerror"}
 IMPORT_MSG = '"import" statement can not be used if meta-model is loaded from string.'
@@ -787,15 +1293,22 @@ class Prop(Check):
         "GramLoad.C23_alias_fuel",
         "GramLoad.C23_parse_failure",
         "GramLoad.C23_unfixed_alias_false",
+        "GramLoad.C23_regex_any_exception",
+        "GramLoad.C23_narrow_handler_false",
+        "GramLoad.C23_start_only_alias_false",
     ]
     DRIVER = "Drivers/GramLoad.lean"
-    QUICK_CASES = 1200
+    QUICK_CASES = 1400
     THOROUGH_CASES = 30000
     PROCS_QUICK = min(2, int(os.environ.get("VERIF_PROCS", "2")))
     PROCS_THOROUGH = int(os.environ.get("VERIF_PROCS", "4"))
     CASE_TIMEOUT = 20
-    RULE = ("grammar texts: valid generated grammars (gen_grammar), 1-3 AST-level mutations of them (17 operators: undefined / "
-            "dropped / duplicated rules, alias cycles, invalid regexes and escapes, bad rule parameters and modifiers, bool "
+    RULE = ("grammar texts: valid generated grammars (gen_grammar), 1-3 AST-level mutations of them (20 operators: undefined / "
+            "dropped / duplicated rules, alias cycles, alias graphs (single-reference rules forming random functional graphs: "
+            "tails into cycles, several tails, chains into real / base / undefined rules; entered from the root rule, from "
+            "references in every syntactic position, or not at all), rule references redirected to arbitrary rules (recursion through ordinary and abstract rules), regexes drawn from the productions of the regex syntax "
+            "(valid or with one of 16 flaws, repetition bounds of every magnitude up to 10**30, nesting beyond the interpreter "
+            "stack) in every place a regex match can stand, generated string escapes, bad rule parameters and modifiers, bool "
             "assignments, `parent`, links, reference statements, reserved names, import, `#`, base-type names, nesting), "
             "token-level mutations, and grammars drawn from the productions of the grammar language; non-trivial = the text "
             "gets past the grammar parser and the visitor or the second pass reports an error (an error path inside "
@@ -804,14 +1317,17 @@ class Prop(Check):
                 "repeat operators, textx_rule incl. _update_attr_multiplicities, import / reference statements), second pass "
                 "(_resolve_rule_refs with alias chains, attribute reads of _determine_rule_types, _resolve_cls_refs, "
                 "TextXMetaModel.__getitem__/__contains__) in an explicit error monad (GramLoad.lean); inputs of the model computed "
-                "by Python itself: the parse tree (grammar parser of the tree under test), re.compile / unicode-escape validity of "
-                "literals, the registered languages; not exhibited: interpreter stack depth (deep nesting: known finding), RREL "
+                "by Python itself: the parse tree (grammar parser of the tree under test), re.compile outcome of every regex literal "
+                "(compiles, or the class of the exception the regex engine raises: re.error / OverflowError / RecursionError / "
+                "ValueError / other) and unicode-escape validity of string literals, the registered languages; not exhibited: interpreter stack depth (deep nesting: known finding), RREL "
                 "sub-trees (opaque), order in which the second pass meets several bad references (model gives the set)")
     ASSUMPTIONS = [
         "the typed tree GramLoad.Grammar is the shape of the parse trees of lang.textx_model (the converter rejects any other shape)",
-        "re.compile / codecs.decode raise only exceptions that the visitor's handlers catch (Exception / ValueError)",
+        "re.compile raises only subclasses of Exception (the model covers every class: C23_regex_any_exception), "
+        "codecs.decode only ValueError subclasses; Python warnings are not turned into errors",
         "metamodel_from_str is called with a str and no file_name, classes, or debug",
-        "CPython recursion limit is not reached (nesting depth of generated grammars <= 40; deeper: known finding KF-C23-1)",
+        "CPython recursion limit is not reached (nesting depth of generated grammars <= 40; deeper: known finding KF-C23-1; "
+        "chains of rule references of generated grammars <= 20 rules; some hundred: known finding KF-C23-2)",
     ]
 
     # ---- generation -------------------------------------------------------
@@ -867,6 +1383,7 @@ class Prop(Check):
     def impl(self, case):
         use_repo()
         import traceback
+        import warnings
 
         from arpeggio import NoMatch
         from textx import metamodel_from_str
@@ -889,7 +1406,9 @@ class Prop(Check):
             obs["parse_recursion"] = True
         # the observation
         try:
-            mm = metamodel_from_str(text, autokwd=bool(opts.get("autokwd")), ignore_case=ic)
+            with warnings.catch_warnings():
+                warnings.simplefilter("ignore")  # FutureWarning / DeprecationWarning of re / codecs: not printed, never raised
+                mm = metamodel_from_str(text, autokwd=bool(opts.get("autokwd")), ignore_case=ic)
             obs["out"] = "ok" if type(mm).__name__ == "TextXMetaModel" else "py:returned " + type(mm).__name__
         except TextXError as e:
             obs["out"] = OUT_NAMES.get(type(e).__name__, "txerror:" + type(e).__name__)
@@ -950,6 +1469,10 @@ class Prop(Check):
         # KF-C23-1: stack exhaustion of the recursive-descent grammar parser / visitor on deep nesting
         if (obs.get("out") == "py:RecursionError" or obs.get("parse_recursion")) and paren_depth(case["text"]) >= 45:
             return "KF-C23-1"
+        # KF-C23-2: stack exhaustion of the recursive `_resolve_rule` / `_determine_rule_type` on a chain of some hundred
+        # rules each referencing the next
+        if obs.get("out") == "py:RecursionError" and obs.get("tree") and ref_chain_depth(obs["tree"]) >= 150:
+            return "KF-C23-2"
         return None
 
     def shrink(self, case):
@@ -966,6 +1489,21 @@ class Prop(Check):
             chunk //= 2
         if case.get("opts", {}).get("autokwd") or case.get("opts", {}).get("ignore_case"):
             yield dict(case, opts={"autokwd": False, "ignore_case": False}, origin="shrunk")
+        # inside a long literal (a regex / string match is one token): drop chunks of its source
+        for i, t in enumerate(toks):
+            if len(t) > 4 and t[0] in "/'\"" and t[-1] == t[0]:
+                body = t[1:-1]
+                m = len(body)
+                chunk = max(1, m // 2)
+                budget = 40
+                while chunk >= 1 and budget > 0:
+                    for j in range(0, m, chunk):
+                        budget -= 1
+                        yield dict(case, text=join_tokens(toks[:i] + [t[0] + body[:j] + body[j + chunk:] + t[0]] + toks[i + 1:]),
+                                   origin="shrunk")
+                        if budget <= 0:
+                            break
+                    chunk //= 2
 
     def sample_view(self, case, obs):
         return {"text": case["text"][:400], "opts": case.get("opts"), "origin": case.get("origin"),
@@ -989,5 +1527,14 @@ class Prop(Check):
                     site = re.sub(r"[\"'(].*", "", re.sub(r"^\S+:\d+:\d+: ", "", o.get("msg", "")))[:40].strip()
                     where[site] = where.get(site, 0) + 1
         multi = sum(1 for m in model_outs if isinstance(m, dict) and len(m.get("alts", [])) > 1)
+        regex, alias = {}, {}
+        for o in obs:
+            if isinstance(o, dict) and o.get("tree"):
+                for cls in regex_outcomes(o["tree"]):
+                    regex[cls] = regex.get(cls, 0) + 1
+                sh = alias_shape(o["tree"])
+                if sh:
+                    alias[sh] = alias.get(sh, 0) + 1
         return {"distribution": dist, "streams": origin, "texts_past_the_parser": parsed, "error_sites": where,
-                "second_pass_order_open": multi}
+                "second_pass_order_open": multi, "regex_literals_by_compile_outcome": regex,
+                "grammars_by_alias_graph_shape": alias}
